@@ -128,6 +128,9 @@ def handle (line : String) : Except String String := do
     let off ← (← j.getObjVal? "offset").getNat?
     let sorted := sortBy keys rows
     return " ".intercalate ((limitOffset (lim.map Int.toNat) off sorted).map showRow)
+  | "glue" =>
+    let arith ← (← (← j.getObjVal? "arith").getArr?).toList.mapM (·.getStr?)
+    return dpipeGlueShape arith (← (← j.getObjVal? "tok").getStr?) (← (← j.getObjVal? "dpipeRight").getBool?)
   | "limit" =>
     let f ← (← j.getObjVal? "form").getStr?
     let a ← (← j.getObjVal? "a").getNat?
